@@ -1516,6 +1516,17 @@ func (p *PubSub) handleIncomingRPC(rpc *RPC) {
 
 	p.tracer.RecvRPC(rpc)
 
+	// A blacklisted peer keeps its inbound stream, but nothing it says is acted upon: its
+	// messages are reported as rejected, its subscriptions and control messages are ignored.
+	if p.blacklist != nil && p.blacklist.Contains(rpc.from) {
+		for _, pmsg := range rpc.GetPublish() {
+			if p.subscribedToMsg(pmsg) || p.canRelayMsg(pmsg) {
+				p.tracer.RejectMessage(&Message{Message: pmsg, ReceivedFrom: rpc.from}, RejectBlacklstedPeer)
+			}
+		}
+		return
+	}
+
 	subs := rpc.GetSubscriptions()
 	if len(subs) != 0 && p.subFilter != nil {
 		var err error
